@@ -62,13 +62,14 @@ def SkelSpec.expected (s : SkelSpec) : List Tm :=
     `type Error = …;` for the fallible traits and nothing else. -/
 theorem C17_skeletons : skelSpecs.all (fun s => s.tmpl == s.expected) = true := by decide
 
-/-- the two bodies of the Into / TryInto skeletons: with a bare `#[parent]` (post-init dialect) and without -/
+/-- the two bodies of the Into / TryInto skeletons: with a bare `#[parent]` (post-init dialect: the `vars` bindings, then the
+    default value of the counterpart *with its generic arguments*, the assignments, the parent calls) and without -/
 theorem C17_into_bodies :
     (tmpl_quote_into_trait.getD 0 [] ==
-        [tk "let", tk "mut", tk "obj", pn ':', .h "dst", pn '=', tk "Default", pj ':', pn ':', tk "default", .g .paren [], pn ';', .h "init", .h "post_init", tk "obj"]
+        [.h "pre_init", tk "let", tk "mut", tk "obj", pn ':', .h "dst", .h "those_gens", pn '=', tk "Default", pj ':', pn ':', tk "default", .g .paren [], pn ';', .h "init", .h "post_init", tk "obj"]
      && tmpl_quote_into_trait.getD 1 [] == [.h "pre_init", .h "init"]
      && tmpl_quote_try_into_trait.getD 0 [] ==
-        [tk "let", tk "mut", tk "obj", pn ':', .h "dst", pn '=', tk "Default", pj ':', pn ':', tk "default", .g .paren [], pn ';', .h "init", .h "post_init", tk "Ok", .g .paren [tk "obj"]]
+        [.h "pre_init", tk "let", tk "mut", tk "obj", pn ':', .h "dst", .h "those_gens", pn '=', tk "Default", pj ':', pn ':', tk "default", .g .paren [], pn ';', .h "init", .h "post_init", tk "Ok", .g .paren [tk "obj"]]
      && tmpl_quote_try_into_trait.getD 1 [] == [.h "pre_init", .h "init"]) = true := by decide
 
 /-- C17: `data_type_impl` emits exactly one skeleton instance per impl context, concatenated (a sequence of items) -/
